@@ -330,6 +330,14 @@ theorem bind_order (ps : Params) (c : CallArgs)
         simp [this]
     simp [hempty]
 
+/-- the `hn` hypothesis of `bind_order` holds for every argument list the evaluator builds:
+explicit named arguments (`omInsert`) and every kind of `...` argument (`spread`) keep the
+named keys pairwise distinct -/
+theorem call_args_keys_distinct (acc : CallArgs) (h : (acc.named.map (·.1)).Nodup) :
+    (∀ x v, (((omInsert x v acc.named).1).map (·.1)).Nodup)
+    ∧ (∀ v acc', spread acc v = .ok acc' → (acc'.named.map (·.1)).Nodup) :=
+  ⟨fun x v => nodup_keys_setAssoc x v acc.named h, fun v acc' hs => nodup_keys_spread acc v acc' h hs⟩
+
 /-- the hypotheses are met by a real call: `m($a, $b: $a + 1, $r...)` called `m(1, 2, 3, $k-k: 4)` -/
 example : specArgError ⟨[("a".toList, none), ("b".toList, some (.add (.var "a".toList) (.num 1)))], some "r".toList⟩
     { pos := [V.num 1, V.num 2, V.num 3], named := [("k_k".toList, V.num 4)] } = false := by decide
